@@ -38,7 +38,11 @@ SeqsUpTo(S, n) == UNION {[1..k -> S] : k \in 0..n}
 VARIABLE m
 vars == <<m>>
 
+\* every text '.'+w, plus bracket segments with longer contents over {1 : - "} (slices with
+\* several colons, signs in odd places, quotes), alone and followed by a field
+Brackets == {<<DOT, LBR>> \o w \o <<RBR>> : w \in SeqsUpTo({49, 58, 45, 34}, 5)}
 Texts == {<<DOT>> \o t : t \in SeqsUpTo(TextChars, MaxText - 1)} \cup {<<>>, <<97>>, <<LBR, 48, RBR>>}
+         \cup Brackets \cup {b \o <<DOT, 97>> : b \in Brackets} \cup {b \o <<QM>> : b \in Brackets}
 
 Init == \/ Mode = "resolve" /\ \E sel \in SeqsUpTo(SegDom, MaxSegs), val \in ValDom :
                                   m = [kind |-> "resolve", r |-> InitR(sel, val)]
